@@ -34,6 +34,7 @@ pub fn run_c08(args: &Args) -> i32 {
     acc.count("results_checked", out.results);
     acc.count("samples_in_results", out.samples_seen);
     acc.count("view_state_judgements", out.view_judged);
+    acc.count("pairs_of_changes_arriving_in_swapped_order", out.swapped_arrivals);
     if out.multi_gen {
       acc.count("cases_with_reborn_instances", 1);
     }
